@@ -1,5 +1,5 @@
 """Core message family (module PbCodec / PbObject): C03-C17, C28-C31 share one specification and one harness package."""
-import json, os, time
+import json, os, subprocess, time
 import vlib
 from props import check, cfg, MODULE_OF, HARNESS_PKGS
 from vlib import tlc, build_harness, replay_tour, scratch, harness, validate_trace, read_ndjson, log
@@ -54,7 +54,7 @@ def tlaset(xs):
     return "{" + ",".join(str(x) for x in xs) + "}"
 
 
-def drive_hist(res, binary, seed, n, types=None, shards=None, label="hist", tags="verif", pkgs=PKG):
+def drive_hist(res, binary, seed, n, types=None, shards=None, label="hist", tags="verif", pkgs=PKG, gen_file=None):
     """Seeded random histories on the real code (all corpus types and flavours), validated by Trace_PbObject."""
     schema = export_schema(binary, tuple(types or ()))
     env = {"VERIF_TYPES": ",".join(types)} if types else None
@@ -63,7 +63,10 @@ def drive_hist(res, binary, seed, n, types=None, shards=None, label="hist", tags
             env = dict(env or {}, **{k: os.environ[k]})
     gen = os.path.join(scratch(), "%s-gen-%d.ndjson" % (label, seed))
     tr = os.path.join(scratch(), "%s-trace-%d.ndjson" % (label, seed))
-    harness(binary, ["gen", "hist", seed, n, gen], env=env)
+    if gen_file:
+        gen = gen_file
+    else:
+        harness(binary, ["gen", "hist", seed, n, gen], env=env)
     harness(binary, ["exec", "hist", gen, tr], env=env)
     t0 = time.time()
     total, bad = validate_trace("Trace_PbObject", tr, shards=shards, env={"SCHEMA": schema}, timeout=3000)
@@ -96,6 +99,103 @@ def drive_hist(res, binary, seed, n, types=None, shards=None, label="hist", tags
     res.traces += total
     res.extra["histories"] = res.extra.get("histories", 0) + total
     return total, bad
+
+
+# ============================================================================ the repository's own decode tables as inputs
+_tables = {}
+
+
+def repo_tables(tags="verif"):
+    """Inputs (type, wire bytes, options) of proto/testmessages_test.go and messageset_test.go, dumped by a test file that is
+    overlaid into /repo/proto for one `go test` run.  Only inputs are taken: what must happen is the specification's business."""
+    if tags not in _tables:
+        out = os.path.join(scratch(), "repo-tables-%s.ndjson" % tags.replace(",", "_"))
+        ov = vlib.overlay_file({os.path.join(vlib.REPO, "proto", "zz_verif_export_test.go"):
+                                os.path.join(vlib.HARNESS, "repotests", "proto_tables_test.go.txt")})
+        r = subprocess.run(["go", "test", "-overlay", ov, "-tags", tags, "-vet=off", "-count=1", "-run", "^TestVerifExportTables$", "./proto"],
+                           cwd=vlib.REPO, env=dict(vlib.GOENV, VERIF_EXPORT=out), capture_output=True, text=True)
+        if r.returncode != 0 or not os.path.exists(out):
+            raise vlib.Infra("exporting the repository's decode tables failed:\n" + (r.stdout + r.stderr)[-3000:])
+        _tables[tags] = list(read_ndjson(out))
+    return _tables[tags]
+
+
+def table_inputs(binary, tags="verif", tables=("valid", "invalid"), maxlen=300, sample=None):
+    known = set(all_types(binary))
+    seen, rows = set(), []
+    for t in repo_tables(tags):
+        k = json.dumps([t["type"], t["b"], t.get("b2"), t["partial"], t["discard"], t["limit"], t["merge"], t["nolazy"]])
+        if t["table"] in tables and t["type"] in known and len(t["b"]) <= maxlen and t["limit"] < 1000 and k not in seen:
+            seen.add(k)
+            rows.append(t)
+    if sample and len(rows) > sample[1]:
+        import random
+        rows = random.Random(sample[0]).sample(rows, sample[1])
+    return rows
+
+
+def tables_dec(res, binary, tags="verif", tables=("valid", "invalid"), sample=None):
+    """every table input through module dec (fresh Unmarshal + validator), generated and dynamicpb, lazy and eager; Trace_PbDecode decides"""
+    rows = table_inputs(binary, tags, tables, sample=sample)
+    types = sorted({t["type"] for t in rows})
+    schema = export_schema(binary, tuple(types))
+    gen = os.path.join(scratch(), "tables-dec.ndjson"); tr = gen + ".out"
+    with open(gen, "w") as fh:
+        for t in rows:
+            for dyn in (False, True):
+                for nolazy in (False, True):
+                    fh.write(json.dumps({"type": t["type"], "dyn": dyn, "b": t["b"], "limit": t["limit"], "partial": t["partial"],
+                                         "discard": t["discard"], "nolazy": nolazy, "desc": t["desc"][:80]}) + "\n")
+    harness(binary, ["exec", "dec", gen, tr])
+    total, bad = validate_trace("Trace_PbDecode", tr, shards=3, env={"SCHEMA": schema}, timeout=3000)
+    log("repository decode tables: %d inputs -> %d decode events, %d rejected" % (len(rows), total, len(bad)))
+    events = list(read_ndjson(tr))
+    for ev in events:
+        res.distinct.add(json.dumps(["table", ev["type"], ev["dyn"], ev["desc"]]))
+    for i in bad:
+        res.fail(dict(events[i], _module="dec", _trace="Trace_PbDecode", _types=types), "trace: PbDecodeCases rejects the Unmarshal of an input of the repository's own decode tables")
+    res.trace_events += total; res.evaluations += total; res.traces += 1
+    res.notes.append("%d inputs of the repository's decode tables %s decoded on 4 routes each and validated by Trace_PbDecode" % (len(rows), list(tables)))
+
+
+def tables_hist(res, binary, tags="verif", tables=("valid",), label="tables", pkgs=PKG, sample=None):
+    """every table input as the start of a history: unmarshal, checkinit, size, marshal, round trip, equal, clone, concatenation"""
+    rows = table_inputs(binary, tags, tables, sample=sample)
+    types = sorted({t["type"] for t in rows})
+    gen = os.path.join(scratch(), "%s-hist.ndjson" % label)
+    with open(gen, "w") as fh:
+        for t in rows:
+            um = {"op": "unmarshal", "o": 0, "b": t["b"], "merge": False, "partial": True, "discard": t["discard"], "limit": t["limit"], "nolazy": False}
+            tail = [{"op": "checkinit", "o": 0}, {"op": "size", "o": 0, "det": True}, {"op": "marshal", "o": 0, "det": True, "partial": True},
+                    {"op": "rt", "o": 0, "o2": 1, "det": False, "nolazy": True}, {"op": "equal", "o": 0, "o2": 1},
+                    {"op": "clone", "o": 0, "o2": 2}, {"op": "equal", "o": 2, "o2": 0},
+                    {"op": "cat", "o": 0, "o2": 1, "o3": 2, "det": True, "nolazy": False}, {"op": "marshal", "o": 2, "det": True, "partial": False}]
+            for dyn in (False, True):
+                for lastonly in (False, True):
+                    for nolazy in ((False, True) if not dyn else (True,)):
+                        fh.write(json.dumps({"type": t["type"], "dyn": dyn, "lastonly": lastonly, "steps": [dict(um, nolazy=nolazy)] + tail}) + "\n")
+    res.notes.append("%d inputs of the repository's decode tables %s continued as histories (checkinit, size, marshal, round trip, equal, clone, "
+                     "concatenation; generated lazy/eager + dynamicpb; projected every step / only at the end) validated by Trace_PbObject" % (len(rows), list(tables)))
+    return drive_hist(res, binary, 0, 0, types=types, shards=3, label=label, tags=tags, pkgs=pkgs, gen_file=gen)
+
+
+def tables_merge(res, binary, label="tables-merge", sample=None):
+    """proto/merge_test.go's table: destination and source (as the encodings of the messages the table builds) merged four ways"""
+    rows = table_inputs(binary, "verif", ("merge",), sample=sample)
+    types = sorted({t["type"] for t in rows})
+    gen = os.path.join(scratch(), "%s-hist.ndjson" % label)
+    with open(gen, "w") as fh:
+        for t in rows:
+            for dyn in (False, True):
+                um = lambda o, b: {"op": "unmarshal", "o": o, "b": b, "merge": False, "partial": True, "discard": False, "limit": 0, "nolazy": dyn}
+                steps = [um(0, t["b"]), um(1, t["b2"]), {"op": "cat", "o": 0, "o2": 1, "o3": 2, "det": True, "nolazy": True},
+                         {"op": "merge", "o": 0, "o2": 1}, {"op": "equal", "o": 0, "o2": 2}, um(2, t["b"]),
+                         {"op": "umerge", "o": 2, "o2": 1, "nolazy": False}, {"op": "equal", "o": 2, "o2": 0},
+                         {"op": "marshal", "o": 0, "det": True, "partial": True}, {"op": "size", "o": 2, "det": True}]
+                for lastonly in (False, True):
+                    fh.write(json.dumps({"type": t["type"], "dyn": dyn, "lastonly": lastonly, "steps": steps}) + "\n")
+    res.notes.append("%d (destination, source) pairs of proto/merge_test.go merged by Merge, by concatenated decoding and by Unmarshal{Merge}, validated by Trace_PbObject" % len(rows))
+    return drive_hist(res, binary, 0, 0, types=types, shards=3, label=label, gen_file=gen)
 
 
 # ============================================================================ registered checks
@@ -197,6 +297,8 @@ def c03(res, tier, seed):
     mc(res, b, "rt-te", BASE_TE, [1, 5, 12, 14, 16, 31, 44, 56, 112], ["rt", "setu"], D(tier, 2, 3), nest_at=18, nest_fields=[1])
     mc2(tier, res, b, "rt-t3", BASE_T3, [1, 81, 92, 94, 31, 56, 112], ["rt"], D(tier, 2, 3))
     mc2(tier, res, b, "rt-t2", BASE_T2, [1, 12, 16, 31, 56, 112], ["rt", "setu"], 2)
+    # the repository's own curated decode inputs, continued as histories (quick: a seeded sample of 50)
+    tables_hist(res, b, sample=(seed, 50) if tier == "quick" else None)
     finish(res, b, seed, tier, "mut=10,marshal=3,unmarshal=3,rt=5,reset=1,clone=1,boundary=3", sweep=True, rotate=True)
 
 
@@ -215,6 +317,7 @@ def c07(res, tier, seed):
     # a singular group field (DELIMITED) present on both sides with complementary sub-fields: merge, never replace
     mc(res, b, "merge-group", BASE_TE, [16], ["merge", "umerge", "cat"], 3, nobj=3, nest_at=16, nest_fields=[17, 16])
     mc2(tier, res, b, "merge-t3", BASE_T3, [81, 31, 71, 112], ["merge", "umerge", "cat", "setu"], 2, nobj=3, nest_at=98, nest_fields=[1])
+    tables_merge(res, b, sample=(seed, 20) if tier == "quick" else None)
     finish(res, b, seed, tier, "mut=10,merge=4,umerge=3,cat=3,unmarshal=1,clone=1")
 
 
@@ -418,6 +521,8 @@ def c06(res, tier, seed):
         # lazy tree node: field 1 int32 (08), 2 nested lazy message (12), 99 lazy (9a 06), wrong wire types for them
         mc_decode(res, b, "lazy", LAZY_NODE, [0, 1, 2, 6, 8, 16, 18, 21, 128, 152, 154, 255], 4, [0, 1, 2, 3],
                   flavs=[(LAZY_NODE, False), (LAZY_NODE, True), ("hybrid.lazy_tree.Node", False), ("lazy_tree.Node", False)])
+    # every input of the repository's own valid/invalid decode tables (inputs only; the verdict is the specification's)
+    tables_dec(res, b)
     n = 1500 if tier == "quick" else 60000
     from vlib import drive_and_validate
     schema = export_schema(b, ())
@@ -576,6 +681,9 @@ def c47(res, tier, seed):
     mc(res, b, "mset", MSET, [1000] if tier == "quick" else [1000, 1001], ["uwire", "uwmerge", "rt", "size"] + ([] if tier == "quick" else ["clone", "equal", "marshal"]),
        2, nobj=2, nest_at=0 if tier == "quick" else 1000, nest_fields=[1],
        wire_recs=MSET_RECS[:6] if tier == "quick" else MSET_RECS, max_recs=2, also=(br,), laws=["AllWellFormed", "RoundTripLaw"])
+    # the repository's own MessageSet decode tables (inputs only), as fresh decodes and as histories
+    tables_dec(res, b, tags="verif,protolegacy", tables=("messageset", "messageset-invalid"))
+    tables_hist(res, b, tags="verif,protolegacy", tables=("messageset",), label="tables-mset", pkgs=("msg", "mset"))
     for bb, lab in ((b, "fast"), (br, "reflect")):
         os.environ["VERIF_MIX"] = "mut=10,marshal=3,size=3,unmarshal=4,rt=3,merge=1,clone=1,equal=1,checkinit=1,cat=1"
         try:
